@@ -394,20 +394,40 @@ DEP_ADDING = ["pixee:python/url-sandbox", "pixee:python/sandbox-process-creation
 IN_SETUP_PY = ["pixee:python/secure-random", "pixee:python/use-generator", "pixee:python/harden-pickle-load"]
 
 
+SAME_DEP = ("pixee:python/url-sandbox", "pixee:python/sandbox-process-creation")  # both need the package `security`
+
+
 def manifest_pairs(tier):
-    return [(a, b) for a in DEP_ADDING for b in IN_SETUP_PY if a != b] + ([(b, a) for a in DEP_ADDING for b in IN_SETUP_PY if a != b] if tier == "thorough" else [])
+    from . import manifests_space as ms
+
+    out = [(a, b) for a in DEP_ADDING for b in IN_SETUP_PY if a != b] + ([(b, a) for a in DEP_ADDING for b in IN_SETUP_PY if a != b] if tier == "thorough" else [])
+    # two codemods that need the SAME package, every requirements.txt content of C14's alphabet (one-line sequences; hash-pinned,
+    # markers, extras, -r / -e lines ...) and the other manifest kinds: written once in one invocation, once in the chain
+    for label, _ in ms.req_texts(1):
+        out += [SAME_DEP + ("requirements.txt:" + label,), SAME_DEP[::-1] + ("requirements.txt:" + label,)]
+    for kind in ("setup.cfg", "pyproject.toml", "setup.py"):
+        for label in ms.KINDS[kind][0]:
+            out.append(SAME_DEP + (f"{kind}:{label}",))
+    return out
+
+
+def _manifest_files(arg):
+    from . import manifests_space as ms
+
+    k1, k2, *rest = arg
+    if not rest:
+        return {"app/one.py": canonical_seed(k1).input.encode(), "setup.py": SETUP_PY, "README.txt": b"demo\n"}
+    kind, label = rest[0].split(":", 1)
+    text = dict(ms.req_texts(1))[label] if kind == "requirements.txt" else ms.KINDS[kind][0][label]
+    return {"app/one.py": canonical_seed(k1).input.encode(), "app/two.py": canonical_seed(k2).input.encode(), kind: text.encode()}
 
 
 def manifest_pair_job(arg):
-    k1, k2 = arg
-    files = {"app/one.py": canonical_seed(k1).input.encode(), "setup.py": SETUP_PY, "README.txt": b"demo\n"}
-    return dict(_seq_job_on(files, [k1, k2], drive.run_inproc), pair=(k1, k2))
+    return dict(_seq_job_on(_manifest_files(arg), list(arg[:2]), drive.run_inproc), pair=tuple(arg))
 
 
 def manifest_pair_job_cli(arg):
-    k1, k2 = arg
-    files = {"app/one.py": canonical_seed(k1).input.encode(), "setup.py": SETUP_PY, "README.txt": b"demo\n"}
-    return dict(_seq_job_on(files, [k1, k2], drive.run_cli), pair=(k1, k2))
+    return dict(_seq_job_on(_manifest_files(arg), list(arg[:2]), drive.run_cli), pair=tuple(arg))
 
 
 def _seq_job_on(files, ks, runner):
